@@ -15,9 +15,10 @@ os.makedirs(dst, exist_ok=True)
 prev_run = {}
 if os.path.exists(f"{dst}/meta.json"):
     prev_run = json.load(open(f"{dst}/meta.json")).get("what_was_run", {})
-for f in os.listdir(src):
-    if os.path.isfile(os.path.join(src, f)):
-        shutil.copy(os.path.join(src, f), dst)
+if os.path.isdir(src):
+    for f in os.listdir(src):
+        if os.path.isfile(os.path.join(src, f)):
+            shutil.copy(os.path.join(src, f), dst)
 meta = json.load(open(f"{dst}/meta.json"))
 wt = f"/tmp/vwt-{name}"
 def sh(cmd, **kw):
